@@ -83,6 +83,21 @@ def compare_num(got, want, rtol=1e-8, atol=1e-9):
     return ok, f"max|got-want|={err:.3e} (scale {scale:.3e})"
 
 
+def _raised_in_harness(exc):
+    """True when the innermost frame of the exception's traceback is code of an obligation module (vt/props/*), i.e. the harness around the real call - not
+    the code under proof, not the symbolic backend (whose ValueErrors model numpy's)"""
+    import os
+    tb = exc.__traceback__
+    last = None
+    while tb is not None:
+        last = tb
+        tb = tb.tb_next
+    if last is None:
+        return False
+    fn = last.tb_frame.f_code.co_filename
+    return os.sep + os.path.join("vt", "props") + os.sep in fn
+
+
 class GOb(Obligation):
     """An obligation discharged by E1-generic: the real function is run on symbolic tensors through the
     symbolic backend; `post` yields (label, got, want) pairs that must be equal as tensors for all sizes/values.
@@ -139,7 +154,14 @@ class GOb(Obligation):
                 del G.WRITE_LOG[:]
                 # the call works on its own copies of the input tensors (numpy's in-place operators write into them); the spec is evaluated on the
                 # inputs as they were before the call, and a later path does not see what an earlier one wrote
-                res = self.call(_snapshot_inputs(I))
+                try:
+                    res = self.call(_snapshot_inputs(I))
+                except EngineError:
+                    raise
+                except (KeyError, AttributeError, IndexError, TypeError, NameError, AssertionError) as e:
+                    if _raised_in_harness(e):   # the obligation's own call harness broke (e.g. it reads a local the code no longer has): a checker problem, never a verdict on /repo
+                        raise EngineError(f"call harness failed: {type(e).__name__}: {e}")
+                    raise
                 prims = list(G.PRIM_LOG)
                 try:
                     pairs = self.post(S, I, res) if self.post else []
